@@ -113,6 +113,20 @@ def _abstract_bitop(func):
         if isinstance(st, ast.Return):
             res["returns"] = norm(st.value) if st.value is not None else None
             continue
+        # result.blocks = <expr over self.blocks/other.blocks>
+        if not inplace and isinstance(st, ast.Assign) and len(st.targets) == 1 and norm(st.targets[0]) == "%s.blocks" % resultvar:
+            v = norm(st.value)
+            for who, nm in (("self", selfn), ("other", othern)):
+                if v == "%s.blocks" % nm:
+                    res["alias"] = "result.blocks is bound to %s.blocks itself (no copy): the pure operator's result shares storage with its operand, so later in-place updates of one change the other" % who
+                elif v in ("list(%s.blocks)" % nm, "%s.blocks[:]" % nm, "%s.blocks.copy()" % nm):
+                    res["copied"] = who
+            if "alias" in res or "copied" in res:
+                continue
+        if not inplace and isinstance(st, ast.AugAssign) and isinstance(st.target, ast.Name) and st.target.id == resultvar and norm(st.value) in (selfn, othern):
+            # delegates to the in-place sibling on a copy: semantics are the in-place sibling's
+            res["delegates"] = type(st.op).__name__
+            continue
         raise AnalysisError("%s: statement not understood: %s" % (func.qualname, src[:80]))
     res["resultvar"] = resultvar
     res["selfn"] = selfn
@@ -134,6 +148,18 @@ def rule_b1(repo, col):
             col.fail("B1", m, c.node, "BitVector lacks %s" % name, construct="class BitVector: %s" % name, function="BitVector")
             continue
         a = _abstract_bitop(f)
+        if a.get("alias"):
+            col.fail("B1", m, f.node, "%s: %s" % (name, a["alias"]), construct="def %s: result aliases an operand" % name, function="BitVector." + name)
+            continue
+        if a.get("delegates"):
+            # result = copy of one operand; result <op>= other  -> same abstraction as the in-place sibling applied to the copy
+            sib = c.methods.get("__i%s" % name[2:])
+            if sib is None or not a.get("copied"):
+                raise AnalysisError("%s: delegation without a copy or without the in-place sibling" % name)
+            b = _abstract_bitop(sib)
+            a["prefix"], a["self_tail"], a["other_tail"] = b["prefix"], b["self_tail"], b["other_tail"]
+            if a["delegates"] != {"BitAnd": "BitAnd", "BitOr": "BitOr"}.get(op):
+                a["prefix"] = a["delegates"]
         col.decide("B1", m, f.node, a["prefix"] == op, "%s combines the common prefix with %s" % (name, op),
                    "%s combines the common blocks with %s, expected %s" % (name, a["prefix"], op), construct="def %s: prefix operator" % name, function="BitVector." + name)
         col.decide("B1", m, f.node, a["self_tail"] == st_, "%s: blocks of self beyond other's length are %s" % (name, st_),
@@ -398,40 +424,116 @@ def rule_b3(repo, col):
     root_none = any(isinstance(s, ast.If) and norm(s.test) == "%s == 0" % pa.params[1] for s in pa.node.body)
     col.decide("B3", m, pa.node, okpc and root_none, "parent(children(i)) == i for i < 40; root has no parent",
                "_parent and _children are not mutually inverse binary-heap index maps", construct="def _parent/_children: index arithmetic", function="UHeap._parent")
-    # orientation of _swim_up / _sink_down
-    su = c.methods.get("_swim_up")
-    ix = su.params[1]
-    cond = [s for s in walk_no_nested(su.node) if isinstance(s, ast.If)]
-    okso = False
-    if cond:
-        t = norm(cond[0].test)
-        okso = ("self._heap[p][0] > self._heap[%s][0]" % ix) in t or ("self._heap[%s][0] < self._heap[p][0]" % ix) in t
-        okso = okso and any(norm(s).startswith("self._swap(p, %s)" % ix) or norm(s).startswith("self._swap(%s, p)" % ix) for s in cond[0].body) \
-            and any(norm(s).startswith("self._swim_up(p)") for s in cond[0].body)
-    col.decide("B3", m, su.node, okso, "_swim_up swaps while the parent's key is greater", "_swim_up must swap with the parent exactly while the parent's key is greater (min-heap) and continue from the parent",
-               construct="def _swim_up: orientation", function="UHeap._swim_up")
+    # orientation of _swim_up / _sink_down: decision tables over the finite domain of key orderings
+    _heap_tables(repo, col, c)
+
+
+def _eval_atom(src, mapping):
+    """Evaluate an atomic condition (source after substitution) under a scenario: `mapping` is a list of
+    (sub-expression source, python literal) replaced longest-first; the result is constant-folded."""
+    for k, v in sorted(mapping, key=lambda kv: -len(kv[0])):
+        src = src.replace(k, "(%s)" % repr(v))
+    try:
+        e = ast.parse(src, mode="eval").body
+    except SyntaxError:
+        raise AnalysisError("heap decision table: atom not parseable after substitution: %s" % src)
+    ok, v = const_value(e)
+    if not ok:
+        raise AnalysisError("heap decision table: atom not decidable in the ordering domain: %s" % src)
+    return bool(v)
+
+
+def _feasible_paths(paths, mapping):
+    out = []
+    for p in paths:
+        if all(_eval_atom(src, mapping) == truth for src, truth, _ in p.conds):
+            out.append(p)
+    return out
+
+
+def _heap_tables(repo, col, c):
+    from .. import dtable
+
+    m = c.module
+    # ---- _sink_down
     sd = c.methods.get("_sink_down")
-    g = cfgmod.build(sd.node)
-    facts = cfgmod.available_facts(g)
-    okd = True
-    nsw = 0
-    for node in g.stmt_nodes():
-        if node.kind == "stmt" and isinstance(node.ast, ast.Expr) and norm(node.ast).startswith("self._swap("):
-            nsw += 1
-            call = node.ast.value
-            child = norm(call.args[1])
-            st = facts.get(node.id) or frozenset()
-            kk = "k1" if child == "c1" else "k2"
-            other = "k2" if kk == "k1" else "k1"
-            direct = ("k > %s" % kk, True) in st or ("%s < k" % kk, True) in st
-            via = kk == "k2" and ("k > k1", True) in st and (("k1 > k2", True) in st or ("k2 < k1", True) in st)
-            if not (direct or via):
-                okd = False
-            if kk == "k1" and (("k1 > k2", True) in st and ("k2 is not None", True) in st):
-                okd = False
-    col.decide("B3", m, sd.node, okd and nsw == 3, "_sink_down swaps with the smaller child whose key is smaller than the node's",
-               "_sink_down must swap with the smaller child, and only when the node's key is greater than that child's key (min-heap)",
-               construct="def _sink_down: orientation", function="UHeap._sink_down")
+    if sd is None:
+        raise AnalysisError("UHeap._sink_down missing")
+    ix = sd.params[1]
+    paths = dtable.extract(sd.node)
+    chs = c.methods["_children"]
+    C1 = "self._children(%s)[0]" % ix
+    C2 = "self._children(%s)[1]" % ix
+    K = "self._heap[%s][0]" % ix
+    K1 = "self._heap[%s][0]" % C1
+    K2 = "self._heap[%s][0]" % C2
+    L = "len(self._heap)"
+    bad = None
+    nscen = 0
+    for present1, present2 in ((False, False), (True, False), (True, True)):
+        for k in (0, 1, 2):
+            for k1 in ((0, 1, 2) if present1 else (None,)):
+                for k2 in ((0, 1, 2) if present2 else (None,)):
+                    nscen += 1
+                    mapping = [("%s < %s" % (C1, L), present1), ("%s < %s" % (C2, L), present2),
+                               ("%s >= %s" % (C1, L), not present1), ("%s >= %s" % (C2, L), not present2),
+                               (K, k), (K1, k1), (K2, k2)]
+                    fe = _feasible_paths(paths, mapping)
+                    if len(fe) != 1:
+                        raise AnalysisError("_sink_down decision table: %d feasible paths for scenario k=%s k1=%s k2=%s" % (len(fe), k, k1, k2))
+                    p = fe[0]
+                    swaps = [a for (f, a, _) in p.calls if f == "self._swap"]
+                    sinks = [a for (f, a, _) in p.calls if f == "self._sink_down"]
+                    cands = [(kk, cc) for kk, cc in ((k1, C1), (k2, C2)) if kk is not None]
+                    smaller = [(kk, cc) for kk, cc in cands if kk < k]
+                    if not smaller:
+                        # must not swap with a child whose key is greater; swapping on equal keys is harmless
+                        for a in swaps:
+                            tgt = [kk for kk, cc in cands if cc in a]
+                            if not tgt or tgt[0] > k:
+                                bad = bad or ("k=%s k1=%s k2=%s: swaps with %s although no child key is smaller" % (k, k1, k2, a))
+                        continue
+                    mn = min(kk for kk, _ in smaller)
+                    best = [cc for kk, cc in smaller if kk == mn]
+                    if len(swaps) != 1 or not any(set(swaps[0]) == {ix, b} for b in best):
+                        bad = bad or ("k=%s k1=%s k2=%s: expected one swap of %s with the smallest child, found %s" % (k, k1, k2, ix, swaps or "no swap"))
+                        continue
+                    child = [b for b in best if b in swaps[0]][0]
+                    if sinks != [[child]]:
+                        bad = bad or ("k=%s k1=%s k2=%s: after swapping with a child the walk must continue from that child, found %s" % (k, k1, k2, sinks))
+    col.count("B3.sink_down_scenarios", nscen)
+    col.decide("B3", m, sd.node, bad is None, "_sink_down: in all %d key orderings the node is swapped with its smallest smaller child and the walk continues there" % nscen,
+               "_sink_down decision table violates the min-heap rule: %s" % bad, construct="def _sink_down: decision table over key orderings", function="UHeap._sink_down")
+    # ---- _swim_up
+    su = c.methods.get("_swim_up")
+    if su is None:
+        raise AnalysisError("UHeap._swim_up missing")
+    ix = su.params[1]
+    paths = dtable.extract(su.node)
+    P = "self._parent(%s)" % ix
+    KP = "self._heap[%s][0]" % P
+    K = "self._heap[%s][0]" % ix
+    bad = None
+    nscen = 0
+    for has_parent in (False, True):
+        for kp in ((0, 1, 2) if has_parent else (None,)):
+            for k in (0, 1, 2):
+                nscen += 1
+                mapping = [("%s is not None" % P, has_parent), ("%s is None" % P, not has_parent), (KP, kp), (K, k)]
+                fe = _feasible_paths(paths, mapping)
+                if len(fe) != 1:
+                    raise AnalysisError("_swim_up decision table: %d feasible paths" % len(fe))
+                p = fe[0]
+                swaps = [a for (f, a, _) in p.calls if f == "self._swap"]
+                ups = [a for (f, a, _) in p.calls if f == "self._swim_up"]
+                if has_parent and kp > k:
+                    if len(swaps) != 1 or set(swaps[0]) != {P, ix} or ups != [[P]]:
+                        bad = bad or ("parent key %s > key %s: expected swap with the parent and continuing from it, found swaps=%s swim=%s" % (kp, k, swaps, ups))
+                elif not has_parent or kp < k:
+                    if swaps:
+                        bad = bad or ("parent %s, key %s: must not swap, found %s" % (kp, k, swaps))
+    col.decide("B3", m, su.node, bad is None, "_swim_up: swaps with the parent exactly while the parent's key is greater (%d scenarios)" % nscen,
+               "_swim_up decision table violates the min-heap rule: %s" % bad, construct="def _swim_up: decision table over key orderings", function="UHeap._swim_up")
 
 
 def run(repo, col):
